@@ -1272,7 +1272,7 @@ func (m *Model) eval(e *N, sc *Scope) (interface{}, ctl) {
 			return nil, c
 		}
 		return !m.truthy(a), ok0
-	case "neg":
+	case "neg", "negb":
 		a, c := m.eval(e.Ns[0], sc)
 		if c.s != sNone {
 			return nil, c
